@@ -166,7 +166,12 @@ impl Reporter {
         j.set("semantic_cases", ch);
         j.set("distinct", Json::i(self.distinct.len() as u64));
         j.set("distinct_saturated", Json::Bool(self.distinct.saturated));
-        j.set("samples", Json::Arr(self.samples.clone()));
+        // Under Miri with -Zmiri-many-seeds several interpreted runs share one stdout: only
+        // writes of at most PIPE_BUF (4096) bytes are atomic there, so the record is kept short
+        // (no samples, no bulky extras) — a longer line could interleave with another seed's.
+        let short = ctx.variant == "miri";
+        j.set("samples", Json::Arr(if short { vec![] } else { self.samples.clone() }));
+        let extra = if short && extra.render().len() > 1200 { Json::obj() } else { extra };
         j.set("extra", extra);
         if let Some(path) = &ctx.fp_out {
             // fingerprints for the exact cross-shard union
